@@ -117,7 +117,31 @@ fn cases_list(tier: Tier) -> Vec<Value> {
         v.push(json!({"kind": "float-midpoints", "f32": f32}));
         v.push(json!({"kind": "float-negative-zero", "f32": f32}));
     }
+    for i in 0..float_range_literals().len() {
+        v.push(json!({"kind": "float-literal-range", "index": i}));
+    }
     v
+}
+
+/// float literals around the largest finite value of their type: (spelling with suffix, type, the
+/// largest finite value spelled exactly, in range?). A literal is in range iff it rounds (once, to
+/// nearest even) to a finite value.
+fn float_range_literals() -> Vec<(String, &'static str, String, bool)> {
+    let max32 = "340282346638528859811704183484516925440.0f32".to_string();
+    let max64 = format!("17976931348623157{}.0", "0".repeat(292));
+    vec![
+        (max32.clone(), "float32", max32.clone(), true),
+        ("340282350000000000000000000000000000000.0f32".into(), "float32", max32.clone(), true),
+        ("340282356779733661637539395458142568447.0f32".into(), "float32", max32.clone(), true),
+        ("340282356779733661637539395458142568447.9f32".into(), "float32", max32.clone(), true),
+        ("340282356779733661637539395458142568448.0f32".into(), "float32", max32.clone(), false),
+        ("340282366920938463463374607431768211456.0f32".into(), "float32", max32.clone(), false),
+        ("680564693277057719623408366969033850880.0f32".into(), "float32", max32.clone(), false),
+        (max64.clone(), "float64", max64.clone(), true),
+        (format!("179769313486231575{}.0", "0".repeat(291)), "float64", max64.clone(), true),
+        (format!("17976931348623159{}.0", "0".repeat(292)), "float64", max64.clone(), false),
+        (format!("18{}.0", "0".repeat(307)), "float64", max64.clone(), false),
+    ]
 }
 
 /// decimal spellings at, just above and just below the midpoint of two adjacent float32 values (a
@@ -403,13 +427,71 @@ impl Family for Numbers {
         300
     }
     fn rule(&self) -> &'static str {
-        "literals: 8 integer types x 8 spellings {0,1,max-1,max,max+1,2max,30 digits,leading zeros} x {suffixed, under unary minus, plain/annotated for int32}, and all 256 values of int8/uint8; arithmetic: all pairs of a 14-value boundary set x {+,-,*,/,<,>,<=,>=,==,!=} for 8 integer types with run-time, literal and mixed operands; negation; division by zero; printing of every boundary value; all 65536 operand pairs of int8/uint8 per operator (thorough; quick: int8 + and uint8 <); float32/float64 over a 15-value set (incl. whole numbers) with run-time, literal, literal-left and literal-right operands; literals at, just above and just below 4 float32 midpoints; negative zero written as a literal, a negated variable and a divisor. oracle: accepted iff in range (typer diagnostic otherwise), printed values = wrapping/truncating reference arithmetic. non-trivial = programs whose reference output contains a wrapped, negative or boundary result; distinct = distinct source text"
+        "literals: 8 integer types x 8 spellings {0,1,max-1,max,max+1,2max,30 digits,leading zeros} x {suffixed, under unary minus, plain/annotated for int32}, and all 256 values of int8/uint8; arithmetic: all pairs of a 14-value boundary set x {+,-,*,/,<,>,<=,>=,==,!=} for 8 integer types with run-time, literal and mixed operands; negation; division by zero; printing of every boundary value; all 65536 operand pairs of int8/uint8 per operator (thorough; quick: int8 + and uint8 <); float32/float64 over a 15-value set (incl. whole numbers) with run-time, literal, literal-left and literal-right operands; literals at, just above and just below 4 float32 midpoints; negative zero written as a literal, a negated variable and a divisor; 11 float32 / float64 literals around the largest finite value (its exact and its shortest spelling, just below / at / above the point from which rounding gives infinity). oracle: accepted iff in range (typer diagnostic otherwise), printed values = wrapping/truncating reference arithmetic. non-trivial = programs whose reference output contains a wrapped, negative or boundary result; distinct = distinct source text"
     }
     fn cases(&self, tier: Tier) -> Box<dyn Iterator<Item = Value> + '_> {
         Box::new(cases_list(tier).into_iter())
     }
     fn run(&self, case: &Value, ctx: &mut Ctx) -> Report {
         let mut rep = Report::default();
+        if case["kind"] == "float-literal-range" {
+            let (lit, ty, max, in_range) = float_range_literals()[case["index"].as_u64().unwrap() as usize].clone();
+            let text = format!("fn main() {{\n    let x: {ty} = {lit};\n    let m: {ty} = {max};\n    string_println(bool_to_string(x == m))\n}}\n", ty = ty, lit = lit, max = max);
+            let shown = if lit.len() > 60 { format!("{}..({} digits)", &lit[..24], lit.len()) } else { lit.clone() };
+            let site = format!("float-literal-range;ty={};literal={}", ty, shown);
+            rep.nontrivial_key = Some(text.clone());
+            let replay = json!({"kind": "literal-number", "source": text, "expect": if in_range { "true" } else { "rejected" }});
+            let path = ctx.scratch.single_path();
+            match crate::oracle::compile_at(&path, &text) {
+                crate::oracle::CompileOutcome::Err(e) => {
+                    let (stage, msg) = describe_err(&e);
+                    rep.tag(format!("literal:rejected:{}", stage));
+                    if in_range {
+                        rep.findings.push(Finding { property: "C10", class: "literal.in-range-rejected".into(), site, detail: msg, replay });
+                    }
+                }
+                crate::oracle::CompileOutcome::Panic(m) => {
+                    let m = normalise_msg(&m);
+                    for p in ["C10", "C04"] {
+                        rep.findings.push(Finding { property: p, class: "compile.panic".into(), site: format!("{};msg={}", site, m), detail: m.clone(), replay: replay.clone() });
+                    }
+                }
+                crate::oracle::CompileOutcome::Ok(c) => {
+                    rep.tag("literal:accepted");
+                    if !in_range {
+                        rep.findings.push(Finding { property: "C10", class: "literal.out-of-range-accepted".into(), site, detail: "a literal that rounds to no finite value was accepted".into(), replay });
+                        return rep;
+                    }
+                    // (constants of this size are beyond the Go model's 128-bit constants: the value is
+                    // checked on the typed tree instead)
+                    let _ = &c;
+                    let value_ok = {
+                        let parsed_ok = if ty == "float32" { lit.trim_end_matches("f32").parse::<f32>().map(|v| v == f32::MAX).unwrap_or(false) } else { lit.parse::<f64>().map(|v| v == f64::MAX).unwrap_or(false) };
+                        let dump = format!("{:?}", c.tast);
+                        parsed_ok && (dump.contains("3.4028235e38") || dump.contains("1.7976931348623157e308") || dump.contains("340282350000000000000000000000000000000") || dump.contains("179769313486231570000"))
+                    };
+                    if value_ok {
+                        rep.tag("literal:value-ok");
+                        return rep;
+                    }
+                    let go = crate::oracle::go_text(&c).unwrap_or_default();
+                    let gr = crate::oracle::analyse_and_run(go, FUEL);
+                    match (&gr.verdict, &gr.run) {
+                        (crate::gosem::GoVerdict::Ok(_), Some(run)) if lossy(&run.stdout).trim_end() == "true" => rep.tag("literal:value-ok"),
+                        (crate::gosem::GoVerdict::Ok(_), Some(run)) => {
+                            rep.findings.push(Finding { property: "C10", class: "literal.value-differs".into(), site, detail: format!("the literal is not the largest finite {}: printed {:?}", ty, lossy(&run.stdout)), replay });
+                        }
+                        (crate::gosem::GoVerdict::Rejected(errs), _) => {
+                            for p in ["C10", "C02"] {
+                                rep.findings.push(Finding { property: p, class: format!("go.{}", errs[0].rule), site: site.clone(), detail: errs[0].msg.clone(), replay: replay.clone() });
+                            }
+                        }
+                        _ => rep.tag("machinery:go-unsupported"),
+                    }
+                }
+            }
+            return rep;
+        }
         let Some((prog, site, expect_reject)) = build(case) else { return rep };
         let kind = case["kind"].as_str().unwrap();
         if kind == "literal" {
